@@ -170,6 +170,13 @@ ADDED['C10'] += ' A clone of a bloom filter keeps its off-loaded state; the filt
 ADDED['C11'] += ' The recreate permission of the index parameters is the configured recreate_index_file.'
 ADDED['C03'] += ' Index regeneration pushes every scanned header.'
 ADDED['C17'] += ' The primitive types encoded / decoded directly with bincode are those of the pinned release (per module).'
+ADDED['C10'] += ' Adding a child to the closed-blob tree consults no filter state; two optional filters merge to "both absent" only when both are.'
+ADDED['C13'] += ' The worker aborts no task it started and subtracts no times with the panicking operator.'
+ADDED['C07'] += ' The scan of the quarantine directory for used ids is unconditional.'
+ADDED['C14'] += ' Storage::init launches the observer after its last suspension point; every path from a space reservation to a return attempts the write of the reserved range.'
+ADDED['C05'] += ' The meta_size of a record is the serialized size of the Meta it carries.'
+ADDED['C17'] += ' Stored child pointers of index nodes are used as absolute file offsets.'
+ADDED['C11'] += ' Semaphore permits and semaphore acquisitions are one node class of the wait-for graph.'
 
 for _k, _v in ADDED.items():
     _t = CHECKS[_k]
